@@ -11,6 +11,7 @@ import (
 
 	"github.com/mattn/anko/ast"
 	"github.com/mattn/anko/env"
+	"github.com/mattn/anko/parser"
 	zz "github.com/mattn/anko/zzverif"
 )
 
@@ -51,6 +52,9 @@ type zzNode struct {
 	catchVar bool
 	defers   []int // nFunc: tags of deferred probe calls registered at body start
 	deferErr int   // index of the deferred call that fails (-1 none)
+	retKind  int   // oReturn leaf: 0 `return v`, 1 bare `return` (nil), 2 `return v, w` (a list)
+	defPos   int   // switch with default: number of cases written before the default clause
+	multi    bool  // switch: every case lists two expressions, the second one is the candidate
 }
 
 type zzGen struct {
@@ -59,6 +63,7 @@ type zzGen struct {
 	c09    bool
 	lite   bool // quick tier: fewer statement kinds, outcomes and iterations
 	stray  bool // inside a function body that is not inside a loop of its own
+	text   bool // the program is rendered as source text and goes through the parser
 }
 
 func (g *zzGen) tag() int { g.next++; return g.next }
@@ -116,7 +121,13 @@ func (g *zzGen) gen(depth int, inLoop bool) *zzNode {
 		n.hasElse = zz.Choose(2) == 1 // default
 		if n.hasElse {
 			n.kids = append(n.kids, g.gen(depth-1, inLoop))
+			if g.text {
+				n.defPos = zz.Choose(ncases + 1) // the default clause may stand before, between or after the cases
+			} else {
+				n.defPos = ncases
+			}
 		}
+		n.multi = !g.lite && zz.Choose(2) == 1
 	case nLoopInf:
 		// the body ends in break / return / error so that it terminates
 		n.kids = []*zzNode{{k: nSeq, kids: []*zzNode{g.gen(depth-1, true), g.leafOf([]int{oBreak, oReturn, oError})}}}
@@ -173,7 +184,11 @@ func (g *zzGen) leaf(inLoop bool) *zzNode {
 }
 
 func (g *zzGen) leafOf(outs []int) *zzNode {
-	return &zzNode{k: nLeaf, out: outs[zz.Choose(len(outs))], tag: g.tag(), deferErr: -1}
+	n := &zzNode{k: nLeaf, out: outs[zz.Choose(len(outs))], tag: g.tag(), deferErr: -1}
+	if n.out == oReturn && !g.lite {
+		n.retKind = zz.Choose(3) // (the lite generator keeps `return v`: the depth-1 programs cover the other forms)
+	}
+	return n
 }
 
 // ---------------------------------------------------------------- reference
@@ -184,6 +199,7 @@ type zzRefState struct {
 	evals        map[int]int // condition tag -> evaluations so far
 	hung         bool
 	result       int64 // value of the last return / expression (tag based)
+	retKind      int   // shape of the last return executed
 	hasRes       bool
 	rootReturned bool
 	throughTry   string // set when break/continue/return leaves a try body
@@ -219,7 +235,7 @@ func (st *zzRefState) ref(n *zzNode) int {
 			st.result, st.hasRes = int64(n.tag), true
 			return oNormal
 		case oReturn:
-			st.result, st.hasRes = int64(1000+n.tag), true
+			st.result, st.hasRes, st.retKind = int64(1000+n.tag), true, n.retKind
 			return oReturn
 		case oThrow:
 			return oError
@@ -357,7 +373,14 @@ func (b *zzBuilder) build(n *zzNode) ast.Stmt {
 		case oContinue:
 			s = &ast.ContinueStmt{}
 		case oReturn:
-			s = &ast.ReturnStmt{Exprs: []ast.Expr{zzLit(int64(1000 + n.tag))}}
+			switch n.retKind {
+			case 0:
+				s = &ast.ReturnStmt{Exprs: []ast.Expr{zzLit(int64(1000 + n.tag))}}
+			case 1:
+				s = &ast.ReturnStmt{}
+			case 2:
+				s = &ast.ReturnStmt{Exprs: []ast.Expr{zzLit(int64(1000 + n.tag)), zzLit(int64(2000 + n.tag))}}
+			}
 		case oError:
 			s = &ast.ExprStmt{Expr: zzBad()}
 		case oThrow:
@@ -394,7 +417,11 @@ func (b *zzBuilder) build(n *zzNode) ast.Stmt {
 		}
 		st := &ast.SwitchStmt{Expr: zzLit(int64(n.subject))}
 		for i := 0; i < ncases; i++ {
-			st.Cases = append(st.Cases, &ast.SwitchCaseStmt{Exprs: []ast.Expr{zzLit(int64(i))}, Stmt: b.block(n.kids[i])})
+			exprs := []ast.Expr{zzLit(int64(i))}
+			if n.multi {
+				exprs = []ast.Expr{zzLit(int64(100 + i)), zzLit(int64(i))}
+			}
+			st.Cases = append(st.Cases, &ast.SwitchCaseStmt{Exprs: exprs, Stmt: b.block(n.kids[i])})
 		}
 		if n.hasElse {
 			st.Default = b.block(n.kids[len(n.kids)-1])
@@ -498,7 +525,13 @@ func zzControlB(depth, budget int, c09 bool, prefix string) {
 }
 
 func zzControlL(depth, budget int, c09, lite bool, prefix string) {
-	g := &zzGen{budget: budget, c09: c09, lite: lite}
+	zzControlT(depth, budget, c09, lite, false, prefix)
+}
+
+// zzControlT: with text set the program is rendered as source text, so that
+// the parser's reading of every construct is part of what is compared.
+func zzControlT(depth, budget int, c09, lite, text bool, prefix string) {
+	g := &zzGen{budget: budget, c09: c09, lite: lite, text: text}
 	prog := g.gen(depth, false)
 	root := &zzNode{k: nFunc, kids: []*zzNode{prog}, deferErr: -1}
 	ref := &zzRefState{evals: map[int]int{}}
@@ -513,13 +546,37 @@ func zzControlL(depth, budget int, c09, lite bool, prefix string) {
 	prefix += ref.throughTry
 	zz.Budget(300000)
 	zz.UnwindIsViolation("terminates." + prefix)
-	v, err := Run(e, &Options{Debug: false}, stmt)
+	var v interface{}
+	var err error
+	if text {
+		src := zzRender(root, "")
+		v, err = Execute(e, &Options{Debug: false}, src)
+		if _, isParseError := err.(*parser.Error); isParseError {
+			zz.Assertf(false, prefix+".generated-program-parses", src)
+			return
+		}
+	} else {
+		v, err = Run(e, &Options{Debug: false}, stmt)
+	}
 	zz.Assert((err == nil) == (ro != oError), prefix+".error-status")
 	zz.Assert(zzSameTrace(zz.Trace(), ref.trace), prefix+".probe-trace")
 	if err == nil && ro != oError && ref.rootReturned {
 		// `return` ends the invocation and yields its value
-		i, ok := v.(int64)
-		zz.Assert(ok && i == ref.result, prefix+".return-value")
+		switch ref.retKind {
+		case 0:
+			i, ok := v.(int64)
+			zz.Assert(ok && i == ref.result, prefix+".return-value")
+		case 1:
+			zz.Assert(v == nil, prefix+".return-value/bare-return-yields-nil")
+		case 2:
+			l, ok := v.([]interface{})
+			zz.Assert(ok && len(l) == 2, prefix+".return-value/several-values-are-a-list")
+			if ok && len(l) == 2 {
+				a, okA := l[0].(int64)
+				c, okC := l[1].(int64)
+				zz.Assert(okA && okC && a == ref.result && c == ref.result+1000, prefix+".return-value/several-values-are-a-list")
+			}
+		}
 	}
 	_ = reflect.ValueOf
 }
@@ -538,3 +595,137 @@ func ZZ_C09_try_defer_d3_b3() { zzControlB(3, 3, true, "C09") }
 
 func ZZ_C08_control_d2_lite()   { zzControlL(2, 2, false, true, "C08") }
 func ZZ_C09_try_defer_d2_lite() { zzControlL(2, 2, true, true, "C09") }
+
+// ---------------------------------------------------------------- source text
+
+func zzItoa(i int) string {
+	if i == 0 {
+		return "0"
+	}
+	neg := i < 0
+	if neg {
+		i = -i
+	}
+	d := ""
+	for i > 0 {
+		d = string(rune('0'+i%10)) + d
+		i /= 10
+	}
+	if neg {
+		return "-" + d
+	}
+	return d
+}
+
+// zzRender writes n as anko source, one statement per line.
+func zzRender(n *zzNode, ind string) string {
+	in2 := ind + "\t"
+	block := func(k *zzNode) string { return "{\n" + zzRender(k, in2) + ind + "}" }
+	switch n.k {
+	case nLeaf:
+		t := zzItoa(n.tag)
+		switch n.out {
+		case oNormal:
+			return ind + "p(" + t + ")\n"
+		case oBreak:
+			return ind + "q(" + t + ")\n" + ind + "break\n"
+		case oContinue:
+			return ind + "q(" + t + ")\n" + ind + "continue\n"
+		case oReturn:
+			switch n.retKind {
+			case 1:
+				return ind + "q(" + t + ")\n" + ind + "return\n"
+			case 2:
+				return ind + "q(" + t + ")\n" + ind + "return " + zzItoa(1000+n.tag) + ", " + zzItoa(2000+n.tag) + "\n"
+			}
+			return ind + "q(" + t + ")\n" + ind + "return " + zzItoa(1000+n.tag) + "\n"
+		case oError:
+			return ind + "q(" + t + ")\n" + ind + "zz_undefined\n"
+		case oThrow:
+			return ind + "q(" + t + ")\n" + ind + "throw \"thrown\"\n"
+		}
+	case nSeq:
+		out := ""
+		for _, k := range n.kids {
+			out += zzRender(k, ind)
+		}
+		return out
+	case nIf:
+		out := ind + "if c(" + zzItoa(n.conds[0]) + ") " + block(n.kids[0])
+		if len(n.conds) > 1 {
+			out += " else if c(" + zzItoa(n.conds[1]) + ") " + block(n.kids[1])
+		}
+		if n.hasElse {
+			out += " else " + block(n.kids[len(n.kids)-1])
+		}
+		return out + "\n"
+	case nSwitch:
+		ncases := len(n.kids)
+		if n.hasElse {
+			ncases--
+		}
+		out := ind + "switch " + zzItoa(n.subject) + " {\n"
+		def := ""
+		if n.hasElse {
+			def = ind + "default:\n" + zzRender(n.kids[len(n.kids)-1], in2)
+		}
+		for i := 0; i < ncases; i++ {
+			if n.hasElse && n.defPos == i {
+				out += def
+			}
+			out += ind + "case "
+			if n.multi {
+				out += zzItoa(100+i) + ", "
+			}
+			out += zzItoa(i) + ":\n" + zzRender(n.kids[i], in2)
+		}
+		if n.hasElse && n.defPos >= ncases {
+			out += def
+		}
+		return out + ind + "}\n"
+	case nLoopInf:
+		return ind + "for " + block(n.kids[0]) + "\n"
+	case nLoopCond:
+		return ind + "for c(" + zzItoa(n.conds[0]) + ") " + block(n.kids[0]) + "\n"
+	case nCFor:
+		return ind + "for zzi = 0; c(" + zzItoa(n.conds[0]) + "); p(" + zzItoa(n.conds[1]) + ") " + block(n.kids[0]) + "\n"
+	case nForIn:
+		lst := ""
+		for i := 0; i < n.nElems; i++ {
+			if i > 0 {
+				lst += ", "
+			}
+			lst += zzItoa(i)
+		}
+		return ind + "for zzx in [" + lst + "] " + block(n.kids[0]) + "\n"
+	case nTry:
+		out := ind + "try " + block(n.kids[0]) + " catch "
+		if n.catchVar {
+			out += "zze "
+		}
+		out += block(n.kids[1])
+		if n.hasFin {
+			out += " finally " + block(n.kids[2])
+		}
+		return out + "\n"
+	case nFunc:
+		out := ind + "func() {\n"
+		for i, d := range n.defers {
+			name := "p"
+			if i == n.deferErr {
+				name = "pfail"
+			}
+			out += in2 + "defer " + name + "(" + zzItoa(d) + ")\n"
+		}
+		return out + zzRender(n.kids[0], in2) + ind + "}()\n"
+	case nModule:
+		return ind + "module zzmod " + block(n.kids[0]) + "\n"
+	}
+	return ""
+}
+
+func ZZ_C08_control_d1_text()        { zzControlT(1, 4, false, false, true, "C08") }
+func ZZ_C08_control_d2_text_lite()   { zzControlT(2, 2, false, true, true, "C08") }
+func ZZ_C08_control_d2_text()        { zzControlT(2, 2, false, false, true, "C08") }
+func ZZ_C09_try_defer_d1_text()      { zzControlT(1, 4, true, false, true, "C09") }
+func ZZ_C09_try_defer_d2_text_lite() { zzControlT(2, 2, true, true, true, "C09") }
